@@ -283,3 +283,87 @@ package cbor
 //@     invariant[last-key] rangeindex >= 0 ==> lastKeyBytes != nil && bytes(lastKeyBytes) == content(entries[rangeindex].keyBuf)
 //@     invariant rangeindex < 0 ==> lastKeyBytes == nil
 //@     invariant accepted(e.w) - wrapped(e.w) == old(accepted(e.w) - wrapped(e.w)) && accepted(e.w) >= old(accepted(e.w))
+
+// ---- deterministic-encoding check (C13) ---------------------------------------
+// Explicit panics on truncated content are the project's chosen rejection
+// (its tests require them): may_panic. Everything else is an obligation.
+
+//@ def detNF(b byte) int = (b & 31) == 24 ? 1 : ((b & 31) == 25 ? 2 : ((b & 31) == 26 ? 4 : ((b & 31) == 27 ? 8 : 0)))
+
+//@ func getUnsignedIntegerValue
+//@   props C13 C10
+//@   may_panic
+//@   requires len(input) >= 1
+//@   ensures ainfo == AdditionalInfoDirect ==> result == uint64(input[0] & 31)
+//@   ensures ainfo == AdditionalInfoOneByte ==> len(input) >= 2 && result == uint64(input[1])
+//@   ensures ainfo == AdditionalInfoTwoBytes ==> len(input) >= 3 && result == uint64(input[1]) * 256 + uint64(input[2])
+//@   ensures ainfo == AdditionalInfoFourBytes ==> len(input) >= 5 && result == uint64(input[1]) * 16777216 + uint64(input[2]) * 65536 + uint64(input[3]) * 256 + uint64(input[4])
+//@   ensures ainfo == AdditionalInfoEightBytes ==> len(input) >= 9 && result >= uint64(input[1]) * 72057594037927936
+//@   assigns nothing
+
+// unsignedIntegerDeterministic: the head at input[0] is in shortest form.
+//@ func unsignedIntegerDeterministic
+//@   props C13 C10
+//@   may_panic
+//@   returns (n, value, err)
+//@   requires len(input) >= 1
+//@   ensures err == nil ==> (input[0] & 31) < 28 && n == detNF(input[0]) && 1 + n <= len(input)
+//@   ensures[shortest-form] err == nil ==> (n == 0 ==> value == uint64(input[0] & 31)) && (n == 1 ==> value >= 24 && value == uint64(input[1])) && (n == 2 ==> value >= 256 && value < 65536) && (n == 4 ==> value >= 65536 && value < 4294967296) && (n == 8 ==> value >= 4294967296)
+//@   assigns nothing
+
+//@ func textOrByteStringDeterministic
+//@   props C13 C10
+//@   may_panic
+//@   returns (n, err)
+//@   requires len(input) >= 1
+//@   ensures[length-in-input] err == nil ==> 0 <= n && 1 + n <= len(input)
+//@   assigns nothing
+
+//@ func deterministicRec
+//@   props C13 C10
+//@   may_panic
+//@   returns (length, err)
+//@   requires len(input) >= 1
+//@   ensures[progress] err == nil ==> 1 <= length && length <= len(input)
+//@   decreases 2 * len(input) + 1
+//@   assigns nothing
+
+// arrays and maps: the declared count (an unsigned 64-bit number) is
+// honoured: each declared item occupies at least one byte of the input.
+//@ func arrayDeterministic
+//@   props C13 C10
+//@   may_panic
+//@   returns (length, err)
+//@   requires len(input) >= 1
+//@   ensures err == nil ==> 1 <= length && length <= len(input)
+//@   ensures[count-honoured] err == nil ==> (input[0] & 31) < 24 ==> length >= 1 + (input[0] & 31)
+//@   decreases 2 * len(input)
+//@   assigns nothing
+//@   loop 0:
+//@     invariant 1 <= startIndexOfNextElement && startIndexOfNextElement <= len(input) && 0 <= arrElementIndex
+//@     invariant[items-counted] startIndexOfNextElement >= 1 + lenOfNumOfItems + arrElementIndex
+//@     invariant[count-is-unsigned] numOfItems <= 9223372036854775807 && arrElementIndex <= numOfItems
+//@     decreases int(numOfItems) - arrElementIndex
+
+//@ func mapDeterministic
+//@   props C13 C10
+//@   may_panic
+//@   returns (length, err)
+//@   requires len(input) >= 1
+//@   ensures err == nil ==> 1 <= length && length <= len(input)
+//@   ensures[count-honoured] err == nil ==> (input[0] & 31) < 24 ==> length >= 1 + 2 * (input[0] & 31)
+//@   decreases 2 * len(input)
+//@   assigns nothing
+//@   loop 0:
+//@     invariant 1 <= startIndexOfNextElement && startIndexOfNextElement <= len(input) && 0 <= mapItemIndex
+//@     invariant[items-counted] startIndexOfNextElement >= 1 + lenOfNumOfItemPairs + mapItemIndex
+//@     invariant[count-is-unsigned] numOfItemPairs <= 4611686018427387903 && mapItemIndex <= 2 * numOfItemPairs
+//@     decreases 2 * int(numOfItemPairs) - mapItemIndex
+
+//@ func Deterministic
+//@   props C13 C10
+//@   may_panic
+//@   assigns nothing
+//@   loop 0:
+//@     invariant 0 <= index && index <= len(input)
+//@     decreases len(input) - index
